@@ -106,7 +106,7 @@ Lemma wf_NewSessionTicket10 : wf_fmt fmt_NewSessionTicket10. Proof. wf_tac. Qed.
 Lemma wf_SessionTicketPayload : wf_fmt fmt_SessionTicketPayload.
 Proof.
   unfold fmt_SessionTicketPayload. cbn [wf_fmt]. split; [lia|]. intros t.
-  destruct (t =? 0); [wf_tac|]. destruct (t =? 1); [|destruct (t =? 2); [|wf_tac]];
+  destruct (t =? 0); [wf_tac|]. destruct (t =? 1); [|destruct (t =? 2); [|destruct (t =? 3); [|wf_tac]]];
     unfold stp_base, stp_certs; wf_msg.
 Qed.
 Lemma wf_CompressedCertificate : wf_fmt fmt_CompressedCertificate. Proof. wf_tac. Qed.
